@@ -279,10 +279,16 @@ def judge(job, lines, crashed, stderr=''):
             if cs is None:
                 out.append("call %d clone returned no snapshot" % (k + 1))
             else:
+                def norm(sn):
+                    # what an absent slot still holds is not observable; reserved counters are unconstrained
+                    vs = [(x if (x is None or x['branch'] != 0) else {'branch': 0}) for x in sn['vertices']]
+                    vs = [None if x is None else dict(x, data=(x.get('data') if x.get('persistence') else [])) if x.get('branch') else x for x in vs]
+                    return {'vertices': vs, 'branches': sn['branches'], 'stores': sn['stores'][2:], 'next_v': sn['next_v']}
+                a, b2 = norm(cs), norm(snap)
                 for key in ('vertices', 'branches', 'stores', 'next_v'):
-                    if cs[key] != snap[key]:
+                    if a[key] != b2[key]:
                         out.append("call %d clone(): the copy differs from the original in %s: %r vs %r" % (
-                            k + 1, key, json.dumps(cs[key])[:200], json.dumps(snap[key])[:200]))
+                            k + 1, key, json.dumps(a[key])[:200], json.dumps(b2[key])[:200]))
                         break
         elif got != exp:
             out.append("call %d %s returned %r, model says %r" % (k + 1, json.dumps(c), got, exp))
